@@ -191,8 +191,12 @@ def run(chk, prop):
   sim = tlc.require_ok(tlc.run('LinenSetup', 'LinenSetup_sim.cfg', workers=1, simulate=nsim, depth=20,
                                seed=chk.seed + 11 + int(prop[1:]), timeout=3000), 'LinenSetup simulate')
   chk.add_tlc(sim, 'LinenSetup simulate (<= 4 uses)')
+  # exhaustive, focused: two sibling Leafs, each passed as an attribute into its own class-level nn.jit wrapper
+  ja = tlc.require_ok(tlc.run('LinenSetup', 'LinenSetup_jattr.cfg', workers=1, timeout=3000), 'LinenSetup jit-attribute wrappers')
+  chk.add_tlc(ja, 'LinenSetup jit-attribute wrappers (exhaustive, 3 uses)')
+  step = 1 if (thorough or full or prop == 'C09') else 4
   seen = set()
-  for idx, beh in enumerate(sim['exports']):
+  for idx, beh in enumerate(ja['exports'][::step] + sim['exports']):
     sig = json.dumps(beh, sort_keys=True)
     if sig in seen:
       continue
